@@ -743,17 +743,24 @@ def run_kinds(ctx, idx, seed, quick):
     with _LOCK:
         model = ctx.model("trace")
     if quick:
-        C45_kinds.check_kinds(ctx, cybuild, model, seed, "_%d" % idx, 30, FX_RET, FX_WRAP, _LOCK, n_mid=5, n_gen=2)
+        C45_kinds.check_kinds(ctx, cybuild, model, seed, "_%d" % idx, 36, FX_RET, FX_WRAP, _LOCK, n_mid=3, n_gen=2)
     else:
         C45_kinds.check_kinds(ctx, cybuild, model, seed, "_%d" % idx, 250, FX_RET, FX_WRAP, _LOCK, n_mid=14, n_gen=6)
 
 
 def run(ctx):
     quick = ctx.tier == "quick"
-    progs = make_programs(ctx, 2 if quick else 110, 1 if quick else 30)
+    if os.environ.get("C45_MEASURE_OLD") == "1":
+        progs = make_programs(ctx, 11, 3)
+        chunks = [progs[i::2] for i in range(2)]
+        import concurrent.futures as cf
+        with cf.ThreadPoolExecutor(max_workers=4) as ex:
+            list(ex.map(lambda kc: check_programs(ctx, kc[1], True, "_%d" % kc[0]), enumerate(chunks)))
+        return
+    progs = make_programs(ctx, 1 if quick else 110, 1 if quick else 30)
     nchunk = 1 if quick else 8
     chunks = [progs[i::nchunk] for i in range(nchunk)]
-    seeds = [ctx.rng.randrange(1 << 30) for _ in range(1 if quick else 6)]
+    seeds = [ctx.rng.randrange(1 << 30) for _ in range(1 if quick else 4)]
     jobs = [("tree", k, c) for k, c in enumerate(chunks)] + [("kinds", k, sd) for k, sd in enumerate(seeds)]
     jobs.sort(key=lambda j: j[1])
 
